@@ -1097,7 +1097,44 @@ def _one(ctx: Ctx, prog: list, sample: bool) -> None:
             ctx.disagreement(sprobs[0], {"program": small, "problems": sprobs})
 
 
+def phase_probe(ctx: Ctx, rng) -> None:
+    """"any phase": a phase shifter with a LARGE phase (|phi| up to 1e15 rad; a phase accumulated over a long path, or
+    given in units that were not reduced) - implementation only, the model's phases are exact points of the unit circle.
+    exp(i*phi) of the very double that was handed over is what the component's matrix element must be: libm reduces
+    the argument exactly, a reduction by the inexact float 2*pi does not (error ~ |phi| * 2.4e-16)."""
+    import cmath
+
+    phi = rng.choice([1e8, 3e9, 1e10, 1e12, -1e12, 1e15, 123456789.125, -2.5e11]) * rng.choice([1, 1, 0.5, 3, 7])
+    n = rng.randint(1, 4)
+    m = rng.randrange(n)
+    c = lw.Circuit(n)
+    how = rng.choice(["const", "param", "param_set"])
+    if how == "const":
+        c.ps(m, phi)
+    else:
+        par = lw.Parameter(phi if how == "param" else 0.25)
+        c.ps(m, par)
+        if how == "param_set":
+            _ = c.U
+            par.set(phi)
+    ctx.count("phase_probe:" + how)
+    want = cmath.exp(1j * phi)
+    try:
+        got = complex(np.array(c.U)[m, m])
+    except Exception as e:  # noqa: BLE001
+        ctx.violation(f"oracle: a phase shifter with phase {phi!r} does not compile ({type(e).__name__})",
+                      {"phase_probe": [n, m, phi, how]}, sig={"kind": "large-phase"})
+        return
+    if abs(got - want) > 1e-10:
+        ctx.violation(f"oracle: U[{m},{m}] of a phase shifter with phase {phi!r} ({how}) is {got:.12g}, exp(i*phi) = {want:.12g} "
+                      f"(deviation {abs(got - want):.3g})", {"phase_probe": [n, m, phi, how]}, sig={"kind": "large-phase"})
+    ctx.case(json.dumps(["phase_probe", n, m, phi, how]), True)
+
+
 def run(ctx: Ctx) -> None:
+    prng = random.Random(f"C01-phase-{ctx.seed}")
+    for _ in range(ctx.n(40, 400)):
+        phase_probe(ctx, prng)
     ctx.rule = ("(1) directed corpus: read-mutate-read for every mutating method (bs, ps, loss, mode_swaps, barrier, "
                 "add of a unitary / of a building block, herald, edit of a block after placement; loss-bearing calls, "
                 "swaps and unitary blocks on a circuit that already has an ancilla mode), tiled building "
@@ -1153,6 +1190,24 @@ def run(ctx: Ctx) -> None:
 
 def replay(ctx: Ctx, path: str) -> None:
     data = json.load(open(path))
+    if "phase_probe" in data["replay"]:
+        n, m, phi, how = data["replay"]["phase_probe"]
+
+        class _Fixed:  # replays the recorded draw
+            def __init__(self, vals):
+                self.vals = list(vals)
+
+            def choice(self, _seq):
+                return self.vals.pop(0)
+
+            def randint(self, _a, _b):
+                return self.vals.pop(0)
+
+            def randrange(self, _a):
+                return self.vals.pop(0)
+
+        phase_probe(ctx, _Fixed([phi, 1, n, m, how]))
+        return
     probs = run_case(ctx, data["replay"]["program"])
     ctx.case("replay", True, sample=data["replay"]["program"])
     for p in probs:
